@@ -150,7 +150,7 @@ class MertonJumpStock(BasePrimary):
 
         output = generate_merton_jump(
             n_paths=n_paths,
-            n_steps=ceil(time_horizon / self.dt + 1),
+            n_steps=ceil(round(time_horizon / self.dt, 10) + 1),
             init_state=init_state,
             sigma=self.sigma,
             mu=self.mu,
